@@ -1,0 +1,25 @@
+//go:build verif
+
+package lang
+
+// Verification hook (build tag "verif"): a deterministic cost budget so that
+// arbitrary generated programs terminate without wall-clock timeouts.
+// A negative budget means unlimited.
+
+var VerifBudget int64 = -1
+
+type VerifBudgetExceeded struct{}
+
+func verifCharge(n int) {
+	if n < 0 {
+		n = -n
+	}
+	if VerifBudget < 0 {
+		return
+	}
+	VerifBudget -= int64(n)
+	if VerifBudget < 0 {
+		VerifBudget = -1
+		panic(VerifBudgetExceeded{})
+	}
+}
